@@ -261,7 +261,9 @@ var unsupportedKinds = map[string]string{
 	"CaseClause": "stray case clause", "CommClause": "stray comm clause",
 }
 
-func (r *rwRT) ruleCover() {
+func (r *rwRT) ruleCover() { r.ruleCoverKinds(nil) }
+
+func (r *rwRT) ruleCoverKinds(only map[string]bool) {
 	c := r.c
 	c.min("RW.DISPATCH", 21)
 	c.min("RW.FIELDCOV", 8)
@@ -274,6 +276,9 @@ func (r *rwRT) ruleCover() {
 		undecided("go/ast has only %d statement kinds?", len(kinds))
 	}
 	for _, kind := range kinds {
+		if only != nil && !only[kind] {
+			continue
+		}
 		for _, shape := range r.shapes(kind) {
 			r.coverShape(fn, pos, kind, shape)
 		}
